@@ -15,8 +15,9 @@ ROOT = os.path.dirname(os.path.dirname(os.path.abspath(__file__)))   # where see
 # Isolated mode (default): checks run in scratch worktrees of /verif HEAD and /repo HEAD so that neither the
 # developer's /repo nor /verif's build directories are disturbed. SEED_INPLACE=1 uses /verif and /repo directly.
 INPLACE = os.environ.get("SEED_INPLACE") == "1"
-RUN = ROOT if INPLACE else "/tmp/w/seed-verif"
-REPO = "/repo" if INPLACE else "/tmp/w/seed-repo"
+SLOT = os.environ.get("SEED_SLOT", "")          # several runs side by side: each slot has its own scratch worktrees
+RUN = ROOT if INPLACE else "/tmp/w/seed-verif" + SLOT
+REPO = "/repo" if INPLACE else "/tmp/w/seed-repo" + SLOT
 ENV = dict(os.environ, GOFLAGS="-mod=mod", GOPROXY="off", GOSUMDB="off", GOTOOLCHAIN="local", VERIF_REPO=REPO)
 
 
